@@ -337,3 +337,24 @@ Proof.
   replace (1 =? 0) with false by reflexivity. replace (1 =? 2) with false by reflexivity.
   now rewrite !andb_false_r.
 Qed.
+
+(* ---- non-index properties of the wrapper ---- *)
+
+(* histories without such properties are exactly the slice machine *)
+Lemma sxrun_embed : forall addr ideal ops s,
+  sxrun addr ideal (s, None) (map XS ops) = srun addr ideal s ops.
+Proof.
+  intros addr ideal. induction ops as [|o ops IH]; intro s; [reflexivity|].
+  cbn [map sxrun srun]. destruct o; cbn [sxstep];
+    try (destruct (sstep addr ideal s _) as [s' r] eqn:E; rewrite IH; reflexivity).
+  - (* JKeys *) cbn [sstep]. rewrite Z.add_0_r. rewrite IH. reflexivity.
+Qed.
+
+(* delete of a non-index property: always true, the Go-side store is untouched,
+   the property is gone afterwards *)
+Theorem delete_nonindex_total : forall addr ideal s xp,
+  let '((s', xp'), r) := sxstep addr ideal (s, xp) XDel in
+  r = o_bool true /\ s' = s /\ xp' = None /\
+  snd (sxstep addr ideal (s', xp') XGet) = o_undef /\
+  snd (sxstep addr ideal (s', xp') XHas) = o_bool false.
+Proof. intros. cbn. destruct addr; cbn; repeat split. Qed.
